@@ -5,6 +5,8 @@ namespace vclock
     void advance_ns(long long ns);
     void set_delta_ns(long long ns);
     long long queries();
+    long long sleeps();      // blocking sleeps the code under test asked for (served in virtual time)
+    long long slept_ns();
     void enable(bool flag);
     void reset();
 }
